@@ -47,6 +47,16 @@ func programs(thorough bool) []*prog.Shape {
 			shapes = append(shapes, c)
 		}
 	}
+	// third axis: one struct type used by several fields.  Every shape above in
+	// which two groups have the same children, declared with a single shared
+	// type for them (signature prefix "~")
+	n := len(shapes)
+	for _, s := range shapes[:n] {
+		if s.Sharable() {
+			c, _ := prog.ParseSig("~" + s.Sig())
+			shapes = append(shapes, c)
+		}
+	}
 	return shapes
 }
 
@@ -112,7 +122,7 @@ func run(c *fw.Ctx) {
 	const batchSize = 130
 	nb := (len(shapes) + batchSize - 1) / batchSize
 	c.Bound("programs", len(shapes))
-	c.Bound("grammar", "leaves int32 x {required, optional, repeated}, groups {required, optional, repeated}; quick: depth<=2 & leaves<=2 (2073) + 39 single-leaf shapes x 7 other leaf types; thorough adds depth<=3 & leaves<=2 and depth<=1 & leaves<=3")
+	c.Bound("grammar", "leaves int32 x {required, optional, repeated}, groups {required, optional, repeated}; quick: depth<=2 & leaves<=2 (2073) + 39 single-leaf shapes x 7 other leaf types + every shape in which two groups have the same children once more with one shared struct type for them (~); thorough adds depth<=3 & leaves<=2 and depth<=1 & leaves<=3")
 	classes := map[string]int64{}
 	for b := 0; b < nb; b++ {
 		if b%c.Shards != c.Shard {
